@@ -172,6 +172,9 @@ pub fn run_block_c17(verif_seed: u64, block: u64, n_runs: usize, opts: &BlockOpt
         } else if run == 77 {
             // once per block: a volume scenario (the same call hundreds / tens of thousands of times)
             crate::gen::gen_volume(seed)
+        } else if run == 134 {
+            // once per block: an axis of more than a thousand knots, hot keys clustered
+            crate::gen::gen_huge(seed)
         } else {
             gen_run(seed, Mode::C17)
         };
@@ -441,6 +444,86 @@ pub fn long_axis_cases(base: &SlotCfg, r: &mut Rng) -> Vec<BuildCase> {
     out
 }
 
+/// decision-table rows over a huge explicit axis: validation code that works in blocks of a power
+/// of two must also look at the pairs that straddle two blocks
+pub fn huge_axis_cases(r: &mut Rng) -> Vec<BuildCase> {
+    let k = *r.pick(&[10u32, 11, 12, 13]);
+    let n = (1usize << k) + r.range(2, 70);
+    let two = r.chance(1, 3);
+    let m = 3;
+    let long: Vec<Fb> = (0..n).map(|i| Fb(-7.0 + i as f64 * 0.5)).collect();
+    let short: Vec<Fb> = (0..m).map(|i| Fb(i as f64)).collect();
+    let long_is_y = two && r.chance(1, 2);
+    let shape = if two { if long_is_y { vec![m, n] } else { vec![n, m] } } else { vec![n] };
+    let total: usize = shape.iter().product();
+    let cfg = SlotCfg {
+        kind: if two { Kind::Probe2 } else { Kind::Probe1 },
+        elem: Elem::F64,
+        storage: *r.pick(&[Storage::Owned, Storage::Shared, Storage::View]),
+        dimty: if two { DimTy::Ix2 } else { DimTy::Ix1 },
+        shape,
+        x: Some(if long_is_y { short.clone() } else { long.clone() }),
+        y: if two { Some(if long_is_y { long.clone() } else { short.clone() }) } else { None },
+        data: (0..total).map(|i| Fb((i % 13) as f64)).collect(),
+        extrapolate: false,
+        bc: Bc::NotAKnot,
+        probe_min: 2,
+        build_plan: BuildPlan::Ok,
+        data_lay: Lay::C,
+        x_lay: Lay::C,
+        build_order: 0,
+    };
+    let name = if long_is_y { "y" } else { "x" };
+    let get = |c: &SlotCfg| -> Vec<Fb> { if long_is_y { c.y.clone().unwrap() } else { c.x.clone().unwrap() } };
+    let set = |c: &mut SlotCfg, v: Vec<Fb>| {
+        if long_is_y {
+            c.y = Some(v)
+        } else {
+            c.x = Some(v)
+        }
+    };
+    // positions: the pairs around every power-of-two multiple that fits, the ends, a few random ones
+    let mut pos: Vec<usize> = vec![0, n - 2];
+    for e in 6..=k {
+        let b = 1usize << e;
+        // the first three multiples of the block size and the last one that fits
+        for q in [b, 2 * b, 3 * b, (n - 1) / b * b] {
+            if q == 0 {
+                continue;
+            }
+            for p in [q - 2, q - 1, q] {
+                if p + 1 < n {
+                    pos.push(p);
+                }
+            }
+        }
+    }
+    for _ in 0..4 {
+        pos.push(r.below(n - 1));
+    }
+    pos.sort();
+    pos.dedup();
+    let mut out = vec![BuildCase { label: format!("huge {name} axis ({n} points): valid"), cfg: { let mut c = cfg.clone(); c.build_plan = BuildPlan::Fail { variant: 1, token: "huge-axis-token".into() }; c }, valid: true, either: false }];
+    for p in pos {
+        let mut c = cfg.clone();
+        let mut a = get(&c);
+        a[p + 1] = a[p];
+        set(&mut c, a);
+        out.push(BuildCase { label: format!("huge {name} axis ({n} points): tie at {p}"), cfg: c, valid: false, either: false });
+        let mut c = cfg.clone();
+        let mut a = get(&c);
+        a.swap(p, p + 1);
+        set(&mut c, a);
+        out.push(BuildCase { label: format!("huge {name} axis ({n} points): swapped pair at {p}"), cfg: c, valid: false, either: false });
+        let mut c = cfg.clone();
+        let mut a = get(&c);
+        a[p + 1] = Fb(f64::NAN);
+        set(&mut c, a);
+        out.push(BuildCase { label: format!("huge {name} axis ({n} points): NaN at {}", p + 1), cfg: c, valid: false, either: false });
+    }
+    out
+}
+
 /// execute one builder decision-table case; returns a violation description if C18 is broken
 pub fn check_build_case(case: &BuildCase) -> Option<(String, String)> {
     let _ = stub::take_build_log();
@@ -572,6 +655,37 @@ pub fn run_block_c18(verif_seed: u64, block: u64, n_bases: usize, opts: &BlockOp
                 no_nest: false,
                 violation: Violation { property: "C18".into(), kind: "build-invariant".into(), detail: format!("{label}: {detail}"), thread: 0, op: 0, step: 0 },
             });
+        }
+    }
+    // --- once per block: a HUGE explicit axis (just above a power of two between 2^10 and 2^13),
+    // damaged at the seams of power-of-two blocks and at a few random positions
+    {
+        let mut rr = Rng::new(derive(run_seed(verif_seed ^ 0xC18, block, 0), 0x4065));
+        for case in huge_axis_cases(&mut rr) {
+            sum.build_cases += 1;
+            let mut c = Counters(std::mem::take(&mut sum.counters));
+            c.add("build.huge_axis_cases", 1);
+            sum.counters = c.0;
+            if let Some((kind, detail)) = check_build_case(&case) {
+                sum.violations.push(RunFile {
+                    format: "dst-replay v1".into(),
+                    property: "C18".into(),
+                    kind: kind.clone(),
+                    engine: "baton".into(),
+                    verif_seed,
+                    block,
+                    run: 0,
+                    variant: format!("build:{}", case.label),
+                    prefix_runs: 0,
+                    flaky: false,
+                    spec: None,
+                    build_case: Some(case.clone()),
+                    miri: None,
+                    no_nest: false,
+                    violation: Violation { property: "C18".into(), kind, detail, thread: 0, op: 0, step: 0 },
+                });
+                break;
+            }
         }
     }
     'bases: for run in 0..n_bases as u64 {
